@@ -1,11 +1,17 @@
-//! mc-mrt: serves C38 (one module per property).
+//! mc-mrt: serves C38 (one module per property) and the run-time parts of C36 / C37 (secondary parts of checks whose
+//! primary binaries are mc-tx / mc-num; see the "also" lists in their checks.d files).
 use mc_core::Ctx;
 
+mod c36rt;
+mod c37rt;
 mod c38;
+mod rt;
 
 fn main() {
     let ctx = Ctx::from_args();
     match ctx.id.as_str() {
+        "C36" => c36rt::run(ctx),
+        "C37" => c37rt::run(ctx),
         "C38" => c38::run(ctx),
         other => mc_core::machinery_error(&format!("mc-mrt does not serve {other}")),
     }
